@@ -19,12 +19,13 @@ def check_groups(groups, n_features_in):
             # We expect that it is a partition, so we should have as much indices as the number of features
             if set(all_indices) != set(range(n_features_in)):
                 raise ValueError("Groups must form a partition of the set of variable indices. Perhaps there are duplicate indices?")
-            return groups
+            # Each group indexes rows of the weight matrices: a tuple would be read as a multi-dimensional index
+            return [list(g) for g in groups]
         else:
             # Not all indices are covered by the proposal, so let's assure that they are unique, then complete
             if len(set(all_indices)) != len(all_indices):
                 raise ValueError("There cannot be duplicate entries in groups.")
-            new_groups = groups + [[i] for i in range(n_features_in) if i not in all_indices]
+            new_groups = [list(g) for g in groups] + [[i] for i in range(n_features_in) if i not in all_indices]
             return new_groups
     else:
         return None
